@@ -38,9 +38,10 @@ def replay_case(args):
     from photutils.datasets import make_model_image
     warnings.simplefilter('ignore')
     rows = case['rows']
-    method, unitful, mapping, shapecol = variant
+    method, unitful, mapping, shapecol = variant[:4]
+    compound = len(variant) > 4 and variant[4]
     out = []
-    sig = {'method': method, 'unitful': unitful, 'mapping': mapping, 'shape_column': shapecol, 'nrows': len(rows),
+    sig = {'method': method, 'unitful': unitful, 'mapping': mapping, 'shape_column': shapecol, 'compound': bool(compound), 'nrows': len(rows),
            'first_row_overlaps': bool(rows) and case['windows'][0]['y0'] < case['windows'][0]['y1'] and case['windows'][0]['x0'] < case['windows'][0]['x1'],
            'any_overlap': case['any_overlap']}
     if not rows:
@@ -75,6 +76,21 @@ def replay_case(args):
     if unitful:
         model = probe_model()
         model.flux = 1.0 * u.Jy
+    if compound:
+        # a compound model: the probe plus a constant whose amplitude (per row) plays the part of the local background
+        from astropy.modeling.models import Const2D
+        model = probe_model() + Const2D(0.0)
+        t.remove_column('local_bkg')
+        if mapping:
+            t['bg'] = bk
+            kw['params_map'] = {'x_0_0': 'xx', 'y_0_0': 'yy', 'flux_0': 'ff', 'amplitude_1': 'bg'}
+            for nm in ('x_0', 'y_0', 'flux'):
+                if nm in t.colnames:
+                    t.remove_column(nm)
+        else:
+            t.rename_columns(['x_0', 'y_0', 'flux'], ['x_0_0', 'y_0_0', 'flux_0'])
+            t['amplitude_1'] = bk
+        kw.update(x_name='x_0_0', y_name='y_0_0')
     md0, td0 = digest([getattr(model, n).value for n in model.param_names]), digest(t)
     shape = (len(case['image']), len(case['image'][0]))
     try:
@@ -205,6 +221,7 @@ def run(ctx):
     g = ctx.tlc('ModelImage', 'GEN_ModelImage.cfg', part='GEN:ModelImage', workers=1, timeout=1200)
     cases = [rec for rec in g.records if rec.get('_tag') == 'GEN']
     variants = [(m, uf, mp, sc) for m in ('center', 'interp', 'oversample', 'integrate') for uf in (False, True) for mp in (False, True) for sc in (True, False)]
+    variants += [(m, False, mp, sc, True) for m in ('center', 'oversample') for mp in (False, True) for sc in (True, False)]      # compound models
     jobs = []
     for i, c in enumerate(cases):
         for k, v in enumerate(variants):
